@@ -1,0 +1,155 @@
+//! Verification hooks. Compiled only with `--cfg rust_dsymbols_verif`; the
+//! shipped library does not contain this module.
+//!
+//! The simulator in /verif uses it to observe and, on request, decide the one
+//! place where the iteration order of a `RandomState` hash set reaches a
+//! result (`simplify::network_cut` picks the start of its boundary walk), to
+//! count which rewriting moves fired, and to look at intermediate D-sets.
+//!
+//! Rule for everything in here and for every call site: never create a
+//! `HashMap`/`HashSet` (directly or through `orbit`, `traversal`, ...). Each
+//! `RandomState::new()` advances the thread's key counter and would change
+//! every later hash order, so an instrumented run would no longer be the run
+//! it claims to observe. Only `Vec`s and sorting are used.
+
+use std::cell::RefCell;
+
+#[derive(Clone, Debug, PartialEq, Eq)]
+pub struct Decision {
+    pub site: &'static str,
+    pub n_options: usize,
+    /// index (into the ascending list of eligible elements) that was taken
+    pub taken: usize,
+    /// index the unmodified code would have taken under the current hash keys
+    pub natural: usize,
+}
+
+#[derive(Clone, Debug, Default)]
+pub struct Policy {
+    /// `picks[k] = Some(j)`: at the k-th decision of this thread take the
+    /// j-th eligible element (modulo the number of options); `None`: natural.
+    pub picks: Vec<Option<usize>>,
+    /// beyond `picks.len()`: `true` = always option 0, `false` = natural
+    pub min_beyond: bool,
+}
+
+#[derive(Clone, Debug)]
+pub struct StateSnapshot {
+    pub tag: &'static str,
+    pub size: usize,
+    pub dim: usize,
+    /// ops[i * size + (d - 1)] = op(i, d)
+    pub ops: Vec<usize>,
+}
+
+#[derive(Default)]
+struct State {
+    active: bool,
+    policy: Option<Policy>,
+    trace: Vec<Decision>,
+    probes: Vec<(&'static str, u64)>,
+    record_states: bool,
+    states: Vec<StateSnapshot>,
+}
+
+thread_local! {
+    static STATE: RefCell<State> = RefCell::new(State::default());
+}
+
+/// Start observing on this thread. `policy = None`: observe only.
+pub fn begin(policy: Option<Policy>, record_states: bool) {
+    STATE.with(|s| {
+        let mut s = s.borrow_mut();
+        *s = State::default();
+        s.active = true;
+        s.policy = policy;
+        s.record_states = record_states;
+    });
+}
+
+pub struct Observed {
+    pub trace: Vec<Decision>,
+    pub probes: Vec<(&'static str, u64)>,
+    pub states: Vec<StateSnapshot>,
+}
+
+/// Stop observing and hand out what was seen.
+pub fn end() -> Observed {
+    STATE.with(|s| {
+        let mut s = s.borrow_mut();
+        let st = std::mem::take(&mut *s);
+        Observed { trace: st.trace, probes: st.probes, states: st.states }
+    })
+}
+
+/// A choice point: `options` are the eligible elements in ascending order,
+/// `natural` the element the unmodified code picks. Returns the element to
+/// use, or `None` when there is no eligible element (caller falls through).
+pub fn choose(site: &'static str, options: &[usize], natural: Option<usize>) -> Option<usize> {
+    let natural = natural?;
+    if options.is_empty() {
+        return Some(natural);
+    }
+    STATE.with(|s| {
+        let mut s = s.borrow_mut();
+        if !s.active {
+            return Some(natural);
+        }
+        let nat_idx = match options.iter().position(|&e| e == natural) {
+            Some(k) => k,
+            None => {
+                // hook copy of the predicate is stale: record, do not steer
+                s.trace.push(Decision { site: "STALE", n_options: options.len(), taken: 0, natural: 0 });
+                return Some(natural);
+            }
+        };
+        let k = s.trace.len();
+        let taken = match &s.policy {
+            None => nat_idx,
+            Some(p) => match p.picks.get(k) {
+                Some(Some(j)) => j % options.len(),
+                Some(None) => nat_idx,
+                None => {
+                    if p.min_beyond {
+                        0
+                    } else {
+                        nat_idx
+                    }
+                }
+            },
+        };
+        s.trace.push(Decision { site, n_options: options.len(), taken, natural: nat_idx });
+        Some(options[taken])
+    })
+}
+
+/// Count that a named branch was reached.
+pub fn probe(name: &'static str) {
+    STATE.with(|s| {
+        let mut s = s.borrow_mut();
+        if !s.active {
+            return;
+        }
+        if let Some(entry) = s.probes.iter_mut().find(|(n, _)| *n == name) {
+            entry.1 += 1;
+        } else {
+            s.probes.push((name, 1));
+        }
+    });
+}
+
+pub fn recording_states() -> bool {
+    STATE.with(|s| {
+        let s = s.borrow();
+        s.active && s.record_states
+    })
+}
+
+pub fn record_state(tag: &'static str, size: usize, dim: usize, ops: Vec<usize>) {
+    STATE.with(|s| {
+        let mut s = s.borrow_mut();
+        if s.active && s.record_states {
+            s.states.push(StateSnapshot { tag, size, dim, ops });
+        }
+    });
+}
